@@ -48,6 +48,16 @@ CHECKS["C11"] = dict(
     design_ref="6/C11",
     technique="TLA+ model (Requests.tla) checked by TLC + TLC trace validation of mask bits against an independent walk of the live request tree",
 )
+CHECKS["C15"] = dict(
+    category="model_checking",
+    text="FileSystem.tla: items with identity, live/deleted sets, timed folder restore; TLC exhausts every operation sequence to depth 10 over root+1 folder name x 2 file "
+    "names (<=5 items; create/delete/restore of files and folders on existing, deleted and never-created targets, ticks) for unique live names, append-only identity and "
+    "root permanence. TLC behaviours (exhaustive-domain and a larger simulated domain, depth 30) are replayed on a real host through the request API, the agent-action "
+    "door and the folder-level request variants, interleaved with scan/repair/corrupt/access operations; membership of every item ever created in the live/deleted "
+    "dictionaries, its own deleted flag, describe_state() and the per-tick counters are projected after every operation and validated by TLC (FileSystemTrace.tla).",
+    design_ref="6/C15",
+    technique="TLA+ model (FileSystem.tla) bounded-exhaustively checked by TLC + TLC behaviours replayed through three request doors + TLC trace validation",
+)
 
 REASON_TODO = "check not built yet in this session (planned, see DESIGN.md 10); nothing is claimed for it"
 
